@@ -46,8 +46,10 @@ CLAIMED = {
             "and every threshold (64-bit solver variable): the real QubitGraph::new / path_fold / gate_depth against a dynamic programme over the per-qubit successor relation.",
             TRUST + "; petgraph Graph modelled as node / edge lists", "5/C29"),
     "C30": ("Two regions, each undeclared or declared BIT/OCTET/INTEGER/REAL, and <= N body instructions (quick 2, thorough 3) from 28 templates (every arithmetic, comparison, "
-            "logic, MOVE/EXCHANGE/LOAD/STORE, frame-update and pulse form) with solver-chosen region names: the real type_check against a typing table written from the "
-            "statement; the verdict is invariant under reordering, duplication and consistent renaming.", TRUST, "5/C30"),
+            "logic, MOVE/EXCHANGE/LOAD/STORE, frame-update and pulse form) with solver-chosen region names: the real type_check: whole-program verdict = conjunction of the "
+            "per-instruction verdicts; SET-*/SHIFT-* accepted iff the expression is real at every depth (incl. API-built literals with a negative imaginary part); a classical "
+            "instruction naming an undeclared region is rejected; the verdict is invariant under reordering, duplication and consistent renaming. The individual classical typing "
+            "rules (which type combinations ADD, MOVE, ... accept) are not stated by the property and not checked.", TRUST, "5/C30"),
     "C31": ("CALL resolution only: a signature of <= P parameters (quick 2, thorough 3; scalar / fixed / variable-length vector, element type, length, mutability solver-chosen) with an "
             "optional return type, a CALL of <= P+1 arguments (memory reference / identifier / immediate over regions a, b, c), regions declared or not with solver-chosen type and "
             "length: the real Call::resolve_arguments resolves iff the count matches and every argument fits its slot as the statement says. The sentence about printing and "
